@@ -91,3 +91,26 @@ Theorem c13_join_priority_is_source :
             forall x y, gtrue (prio_env x y) c = Some (Z.gtb x y).
 Proof. exact Decisions.join_priority_decision. Qed.
 Print Assumptions c13_join_priority_is_source.
+
+(* every node union / split / join build carries numNodes = left + right + 1 and numBytes = left + right + the bytes of
+   the item it is built with, the children's aggregates read from exactly the children it is built with (Treap.mk);
+   the node SetItem builds is Treap.single *)
+Theorem c13_node_aggregates_are_source :
+  aggs_ok None (agg_calls "Store.union") = true /\ aggs_ok None (agg_calls "Store.split") = true /\
+  aggs_ok None (agg_calls "Store.join") = true /\
+  List.length (filter (fun c => String.eqb (fst c) "t.mkNode") (agg_calls "Store.union")) = 3%nat /\
+  List.length (filter (fun c => String.eqb (fst c) "t.mkNode") (agg_calls "Store.split")) = 2%nat /\
+  List.length (filter (fun c => String.eqb (fst c) "t.mkNode") (agg_calls "Store.join")) = 2%nat /\
+  (forall ln rn lb rb ib : Z,
+     let rho := upd (upd (upd (upd (upd env0 "leftNum" ln) "rightNum" rn) "leftBytes" lb) "rightBytes" rb) "x.NumBytes(t)" ib in
+     geval rho (GBin "+" (GBin "+" (GVar "leftNum") (GVar "rightNum")) (GInt 1)) = Some (ln + rn + 1)%Z /\
+     geval rho (GBin "+" (GBin "+" (GVar "leftBytes") (GVar "rightBytes")) (GCall "uint64" [GCall "x.NumBytes" [GVar "t"]])) = Some (lb + rb + ib)%Z).
+Proof. exact Decisions.node_aggregates_are_mk. Qed.
+Print Assumptions c13_node_aggregates_are_source.
+
+Theorem c13_new_node_is_source :
+  agg_calls "Collection.SetItem" =
+  [("t.mkNode", [GNil; GNil; GNil; GInt 1;
+                 GBin "+" (GCall "uint64" [GCall "len" [GVar "item.Key"]]) (GCall "uint64" [GCall "item.NumValBytes" [GVar "t"]])])].
+Proof. exact Decisions.new_node_is_single. Qed.
+Print Assumptions c13_new_node_is_source.
